@@ -106,6 +106,24 @@ func checkPersisted(seg segment.Segment, exp *ref.Content, mode uint32, a *run.A
 	if m := CheckFile(fileBytes, exp.Count, mode); m != "" {
 		return "footer", m
 	}
+	// the same onto a path that already holds ANOTHER file of exactly the final size
+	// (a retried or re-used destination): the bytes must be replaced all the same
+	if len(fileBytes) > 0 {
+		path2 := zx.TempPath("c04s")
+		defer zx.Remove(path2)
+		stale := append([]byte{}, fileBytes...)
+		stale[0] ^= 0xff
+		stale[len(stale)/2] ^= 0x55
+		if err := os.WriteFile(path2, stale, 0600); err != nil {
+			a.Note("HARNESS: cannot prepare a destination file: " + err.Error())
+		} else if err := us.Persist(path2); err != nil {
+			return "persist-error", "Persist onto an existing file of the final size: " + err.Error()
+		} else if again, err := os.ReadFile(path2); err != nil {
+			return "persist-nofile", "Persist onto an existing file reported success but the file cannot be read: " + err.Error()
+		} else if !bytes.Equal(again, fileBytes) {
+			return "bytes-differ", fmt.Sprintf("Persist onto a path holding another file of the same size (%d bytes) left bytes that differ from WriteTo", len(stale))
+		}
+	}
 	opened, err := zx.Plugin.Open(path)
 	if err != nil {
 		return "open-error", "Open: " + err.Error()
@@ -151,7 +169,7 @@ func init() {
 	run.Register(&run.Def{
 		ID:          "C04",
 		Level:       "exploration",
-		Rule:        "bounded-exhaustive: a cross-section of every batch family of C01/C02/C03/C12 (and the vector family under the vectors tag), plus a 'big' family whose stored data (100 B .. 2.2 MB incompressible) pushes all later offsets across the 2^14 and 2^21 varint width boundaries, x their chunk modes, under both build tags: Persist(path) and WriteTo(buffer) must emit identical bytes; the footer is parsed by an independent decoder (document count, chunk mode, version 16, CRC-32 over all preceding bytes); Open must report the same CRC/version/chunk mode/count; the complete dump (terms, postings, stored, doc values, thesauri; vector searches under the vectors tag) of the opened segment must equal that of the in-memory one and the reference. Non-trivial = every batch with >= 1 document.",
+		Rule:        "bounded-exhaustive: a cross-section of every batch family of C01/C02/C03/C12 (and the vector family under the vectors tag), plus a 'big' family whose stored data (100 B .. 2.2 MB incompressible) pushes all later offsets across the 2^14 and 2^21 varint width boundaries, x their chunk modes, under both build tags: Persist(path) - onto a fresh path and onto a path holding another file of exactly the final size - and WriteTo(buffer) must emit identical bytes; the footer is parsed by an independent decoder (document count, chunk mode, version 16, CRC-32 over all preceding bytes); Open must report the same CRC/version/chunk mode/count; the complete dump (terms, postings, stored, doc values, thesauri; vector searches under the vectors tag) of the opened segment must equal that of the in-memory one and the reference. Non-trivial = every batch with >= 1 document.",
 		Assumptions: batchAssumptions,
 		Bounds:      map[string]string{"quick": "cells N<=1 all + special-shape cells N<=3, columns N<=5, boundary, stored, dv (2 chunk sizes), synonym families; vector family N<=3 under vectors tag", "thorough": "all families at their thorough bounds"},
 		Flavours:    plainAndVec,
